@@ -71,8 +71,9 @@ namespace Givaro {
 
     template <class Domain>
     inline typename Poly1Dom<Domain,Dense>::Rep& Poly1Dom<Domain,Dense>::add
-    (Rep& R, const Rep& P, const Type_t& Val) const
+    (Rep& R, const Rep& P, const Type_t& Val0) const
     {
+        const Type_t Val(Val0); // Val0 may be a coefficient of the destination
         if (isZero(P))  {
             R.resize(1);
             _domain.assign(R[0],Val);
@@ -86,8 +87,9 @@ namespace Givaro {
 
     template <class Domain>
     inline typename Poly1Dom<Domain,Dense>::Rep& Poly1Dom<Domain,Dense>::add
-    (Rep& R, const Type_t& Val, const Rep& P) const
+    (Rep& R, const Type_t& Val0, const Rep& P) const
     {
+        const Type_t Val(Val0); // Val0 may be a coefficient of the destination
         if (isZero(P))  {
             R.resize(1);
             _domain.assign(R[0],Val);
@@ -101,8 +103,9 @@ namespace Givaro {
 
     template <class Domain>
     inline typename Poly1Dom<Domain,Dense>::Rep& Poly1Dom<Domain,Dense>::addin
-    (Rep& R, const Type_t& Val) const
+    (Rep& R, const Type_t& Val0) const
     {
+        const Type_t Val(Val0); // Val0 may be a coefficient of the destination
         size_t sR = R.size();
         if (sR == 0)  {
             R.resize(1);
@@ -197,8 +200,9 @@ namespace Givaro {
 
     template <class Domain>
     inline typename Poly1Dom<Domain,Dense>::Rep& Poly1Dom<Domain,Dense>::sub
-    (Rep& R, const Rep& P, const Type_t& Val) const
+    (Rep& R, const Rep& P, const Type_t& Val0) const
     {
+        const Type_t Val(Val0); // Val0 may be a coefficient of the destination
         if (isZero(P))  {
             R.resize(1);
             _domain.neg(R[0],Val);
@@ -212,8 +216,9 @@ namespace Givaro {
 
     template <class Domain>
     inline typename Poly1Dom<Domain,Dense>::Rep& Poly1Dom<Domain,Dense>::subin
-    (Rep& R, const Type_t& Val) const
+    (Rep& R, const Type_t& Val0) const
     {
+        const Type_t Val(Val0); // Val0 may be a coefficient of the destination
         size_t sR = R.size();
         if (sR == 0)  {
             R.resize(1);
@@ -225,8 +230,9 @@ namespace Givaro {
 
     template <class Domain>
     inline typename Poly1Dom<Domain,Dense>::Rep& Poly1Dom<Domain,Dense>::sub
-    (Rep& R, const Type_t& Val, const Rep& P) const
+    (Rep& R, const Type_t& Val0, const Rep& P) const
     {
+        const Type_t Val(Val0); // Val0 may be a coefficient of the destination
         size_t sP = P.size();
         if (sP == 0)  {
             R.resize(1);
